@@ -54,6 +54,16 @@ Section AllParameters.
     Forall (fun e => is_app e = false) (trace (run ck ins)).
   Proof. exact (failing_chain_never_accepts status_code info_dec route_call route_push limit). Qed.
 
+  (* A checker may name the session (SetID) while the exchange is still pending - with an id that
+     another, authenticated session holds.  On the unindexed session this does not touch the hub;
+     that other session is displaced (closed) only by a connection that was accepted, after its OK
+     auth reply.  (With C16_not_accepted_nothing_runs: a pending or rejected connection never
+     displaces anybody, and is never listed under the claimed id either.) *)
+  Theorem C16_only_an_accepted_connection_displaces : forall ck ins,
+    In EvDisplace (trace (run ck ins)) ->
+    accepted (run ck ins) = true /\ In EvAccept (trace (run ck ins)) /\ In (EvAuthReply 0) (trace (run ck ins)).
+  Proof. exact (displace_only_accepted status_code info_dec route_call route_push limit). Qed.
+
   Theorem C16_rejected_closed_and_unindexed : forall ck ins,
     In EvReject (trace (run ck ins)) ->
     ph (run ck ins) = Closed /\ indexed (run ck ins) = false /\ accepted (run ck ins) = false /\
@@ -78,7 +88,7 @@ Section AllParameters.
      behind the checker vetoes; otherwise
      nothing of [rest] is handled. *)
   Theorem C16_pipelined_frames_processed_iff_accepted : forall ck s f rest,
-    ck_recvs ck = 1%nat -> ck_before ck = None -> ck_panic ck = 0%nat ->
+    ck_recvs ck = 1%nat -> ck_before ck = None -> ck_panic ck = 0%nat -> ck_setid ck = 0%nat ->
     parse limit s = PFrame f rest ->
     let fin := run ck [Bytes s; Eof] in
     let ok := Z.eqb (verdict_code ck (Some (recv_of_frame status_code info_dec f))) 0
@@ -95,6 +105,7 @@ Print Assumptions C16_no_hook_or_handler_before_accept.
 Print Assumptions C16_not_accepted_nothing_runs.
 Print Assumptions C16_exchange_exactly_once.
 Print Assumptions C16_failing_hook_anywhere_rejects.
+Print Assumptions C16_only_an_accepted_connection_displaces.
 Print Assumptions C16_rejected_closed_and_unindexed.
 Print Assumptions C16_listed_only_accepted_and_open.
 Print Assumptions C16_finished_after_eof.
@@ -120,7 +131,7 @@ Definition ex_call : bytes :=
   hex "0000002d0002323001092f6170702f6563686f0006636f64653d30000073627a726a7861776e77656b7262656d".
 Definition ex_run (token : bytes) (ins : list input) : st :=
   Auth.run status_code_simple info_dec_simple route_call_h route_push_h 65536
-           (mkChecker 1 false (fun i => bytes_eqb i token) 0 None None) ins.
+           (mkChecker 1 false (fun i => bytes_eqb i token) 0 None None 0) ins.
 
 (* right token, a CALL pipelined in the same write: accepted, the CALL is handled once *)
 Example C16_example_accepted :
@@ -153,8 +164,18 @@ Proof. vm_compute. auto. Qed.
 Example C16_example_panicking_checker :
   let run' ck := Auth.run status_code_simple info_dec_simple route_call_h route_push_h 65536 ck
                           [Bytes (ex_auth ++ ex_call); Eof] in
-  let s1 := run' (mkChecker 1 false (fun i => bytes_eqb i (str "r")) 2 None None) in
-  let s2 := run' (mkChecker 1 false (fun i => bytes_eqb i (str "r")) 0 None (Some HPanic)) in
+  let s1 := run' (mkChecker 1 false (fun i => bytes_eqb i (str "r")) 2 None None 0) in
+  let s2 := run' (mkChecker 1 false (fun i => bytes_eqb i (str "r")) 0 None (Some HPanic) 0) in
   (In EvReject (trace s1) /\ filter is_app (trace s1) = [] /\ filter is_auth_reply (trace s1) = [] /\ ph s1 = Closed) /\
   (In EvReject (trace s2) /\ filter is_app (trace s2) = [] /\ filter is_auth_reply (trace s2) = [EvAuthReply 0] /\ ph s2 = Closed).
 Proof. vm_compute. auto 12. Qed.
+
+(* the checker claims an id before verifying: wrong token - nobody is displaced, nothing listed;
+   right token - the previous holder is displaced, after the accept *)
+Example C16_example_setid :
+  let run' tok := Auth.run status_code_simple info_dec_simple route_call_h route_push_h 65536
+                           (mkChecker 1 false (fun i => bytes_eqb i tok) 0 None None 1)
+                           [Bytes ex_auth; Eof] in
+  (In EvSetID (trace (run' (str "q"))) /\ ~ In EvDisplace (trace (run' (str "q"))) /\ In EvReject (trace (run' (str "q")))) /\
+  (In EvDisplace (trace (run' (str "r"))) /\ accepted (run' (str "r")) = true).
+Proof. vm_compute. repeat split; auto 12. intros H; repeat (destruct H as [H|H]; [discriminate|]); exact H. Qed.
